@@ -26,7 +26,7 @@ def showMeta : Option Meta → String
   | some m => s!"{m.depth},{m.rf},{m.rp},{m.wf},{m.wp}"
 
 def showSt (s : St) (hi : Nat) : String :=
-  s!"st={s.rf},{s.rp},{s.wf},{s.wp},{s.depth},{s.nrf},{s.nrp},{s.mbr},{if s.rOpen then 1 else 0} " ++
+  s!"st={s.rf},{s.rp},{s.wf},{s.wp},{s.depth},{s.nrf},{s.nrp},{s.mbr},{if s.rOpen then 1 else 0},{if s.rOpen then s.rbuf.length else 0} " ++
   s!"md={showMeta s.fs.md} dat={showFiles s.fs.dat hi} bad={showFiles s.fs.bad hi}"
 
 def showFS (fs : FS) (hi : Nat) : String :=
